@@ -46,9 +46,101 @@ VERUS.append(dict(
         dict(name="delta_off_by_one", item="is_end_bound_safe_for_groups", find=".checked_add(1)", replace=".checked_add(2)"),
     ],
 ))
+FN = "datafusion/functions-window/src/ntile.rs"
+VERUS.append(dict(
+    name="ntile_buckets",
+    uses="use vstd::prelude::*;\n",
+    prelude="prelude_ntile.rs", proofs="proofs_ntile.rs", witness="witness_ntile.rs", rlimit=60, min_verified=4, twins=[],
+    items=[
+        dict(file=FN, path=["struct NtileEvaluator"]),
+        dict(file=FN, path=["impl PartitionEvaluator for NtileEvaluator", "fn evaluate_all"], wrap="impl NtileEvaluator", ret="r", loop_count=1,
+             edits=[dict(rule="R13", find="Ok(Arc::new(UInt64Array::from(vec)))", replace="finish_u64_column(vec)")],
+             contract="""    requires old(self).n >= 1,
+        num_rows <= isize::MAX,   // a Vec<u64> of more rows cannot be allocated (`with_capacity` panics first)
+    ensures
+        r is Ok,
+        r->Ok_0.u64_values().len() == num_rows,
+        // every row gets THE bucket the SQL definition assigns to it (buckets as equal as possible, larger ones first)
+        forall|i: int| 0 <= i < num_rows ==> in_bucket(num_rows as int, old(self).n as int, i, (#[trigger] r->Ok_0.u64_values()[i]) as int),""",
+             loops={0: """
+        invariant
+            n >= 1, n == old(self).n, base == num_rows / n, remainder == num_rows % n, large_bucket_size == base + 1,
+            large_rows == remainder * large_bucket_size, large_rows <= num_rows,
+            vec@.len() == i,
+            forall|j: int| 0 <= j < i ==> in_bucket(num_rows as int, n as int, j, (#[trigger] vec@[j]) as int),
+"""},
+             proofs=[
+                 dict(at="after_stmt:4", text="""
+        proof { lemma_large_rows(num_rows as int, n as int); }"""),
+                 dict(at="loop_body_start:0", text="""
+            proof {
+                if (i as int) < (num_rows % n) * (num_rows / n + 1) { lemma_ntile_large(num_rows as int, n as int, i as int); }
+                else { lemma_ntile_small(num_rows as int, n as int, i as int); }
+            }"""),
+             ]),
+    ],
+    mutants=[
+        dict(name="old_formula", item="evaluate_all", find="i / large_bucket_size + 1", replace="i * n / num_rows + 1"),
+        dict(name="small_bucket_offset_missing", item="evaluate_all", find="remainder + (i - large_rows) / base + 1", replace="(i - large_rows) / base + 1"),
+        dict(name="large_rows_wrong", item="evaluate_all", find="let large_rows = remainder * large_bucket_size;", replace="let large_rows = remainder * base;"),
+        dict(name="zero_based_bucket", item="evaluate_all", find="i / large_bucket_size + 1", replace="i / large_bucket_size"),
+    ],
+))
+FU = "datafusion/common/src/utils/mod.rs"
+_SEARCH_EDITS = [
+    dict(rule="G1", find="    compare_fn: F,\n", replace="    compare_fn: F,\n    Ghost(p): Ghost<spec_fn(int) -> bool>,\n"),
+    dict(rule="R3", find="compare_fn(&val, target)?", replace="compare_fn(val.as_slice(), target)?"),
+]
+VERUS.append(dict(
+    name="range_search_kernels",
+    uses="use vstd::prelude::*;\n",
+    prelude="prelude_search.rs", proofs="proofs_search.rs", witness="witness_search.rs", rlimit=60, min_verified=3, twins=[],
+    items=[
+        dict(file=FU, path=["fn find_bisect_point"], ret="r", loop_count=1, edits=_SEARCH_EDITS,
+             contract="""    requires decides(compare_fn, item_columns@, target, p), prefix_closed(p, low as int, high as int),
+    ensures
+        // the partition point of the predicate on [low, high): everything before satisfies it, nothing from it on does
+        r is Ok ==> (if low <= high { low <= r->Ok_0 <= high } else { r->Ok_0 == low })
+            && (forall|i: int| low <= i < r->Ok_0 ==> #[trigger] p(i)) && (forall|i: int| r->Ok_0 <= i < high ==> !#[trigger] p(i)),""",
+             loops={0: """
+        invariant
+            decides(compare_fn, item_columns@, target, p), prefix_closed(p, low0 as int, high0 as int),
+            low0 <= low, high <= high0, low0 <= high0 ==> low <= high, low0 > high0 ==> low == low0,
+            forall|i: int| low0 <= i < low ==> #[trigger] p(i), forall|i: int| high <= i < high0 ==> !#[trigger] p(i),
+        decreases high - low
+"""},
+             proofs=[dict(at="body_start", text="\n    let ghost low0 = low; let ghost high0 = high;")]),
+        dict(file=FU, path=["fn search_in_slice"], ret="r", loop_count=1, edits=_SEARCH_EDITS,
+             contract="""    requires decides(compare_fn, item_columns@, target, p),
+    ensures
+        // linear scan: the first row of [low, high) that fails the predicate (or high)
+        r is Ok ==> (if low <= high { low <= r->Ok_0 <= high } else { r->Ok_0 == low })
+            && (forall|i: int| low <= i < r->Ok_0 ==> #[trigger] p(i)) && (r->Ok_0 < high ==> !p(r->Ok_0 as int)),""",
+             loops={0: """
+        invariant
+            decides(compare_fn, item_columns@, target, p),
+            low0 <= low, low0 <= high ==> low <= high, low0 > high ==> low == low0,
+            forall|i: int| low0 <= i < low ==> #[trigger] p(i),
+        ensures
+            low0 <= low, low0 <= high ==> low <= high, low0 > high ==> low == low0, forall|i: int| low0 <= i < low ==> #[trigger] p(i), low < high ==> !p(low as int),
+        decreases high - low
+"""},
+             proofs=[dict(at="body_start", text="\n    let ghost low0 = low;")]),
+    ],
+    mutants=[
+        dict(name="bisect_low_not_advanced", item="find_bisect_point", find="low = mid + 1;", replace="low = mid;"),
+        dict(name="bisect_high_skips_mid", item="find_bisect_point", find="high = mid;", replace="high = mid - 1;"),
+        dict(name="bisect_midpoint_overflow", item="find_bisect_point", find="let mid = ((high - low) / 2) + low;", replace="let mid = (high + low) / 2;"),
+        dict(name="bisect_branches_swapped", item="find_bisect_point", find="if compare_fn(val.as_slice(), target)? {", replace="if !compare_fn(val.as_slice(), target)? {"),
+        dict(name="linear_stop_inverted", item="search_in_slice", find="if !compare_fn(val.as_slice(), target)? {", replace="if compare_fn(val.as_slice(), target)? {"),
+        dict(name="linear_skips_rows", item="search_in_slice", find="low += 1;", replace="low += 2;"),
+    ],
+))
 KANI = []
 TRUSTED = ["Verus 0.2026.09.13 + bundled Z3", "global size_of usize == 8", "type model of ScalarValue/WindowFrameBound restricted to the variants the function matches on",
            "rewrites R9 (error macros -> opaque error), R11 (std::cmp::min -> verified min_usize)"]
 ASSUMPTIONS = ["precondition idx < length (callers iterate idx over 0..length)", "error content (message text) not verified"]
 NOT_COVERED = ["RANGE frames and WindowFrameStateGroups::calculate_index_of_row (VecDeque::back_mut with &mut tuple patterns: outside the Verus subset; matching on WindowFrameBound makes kani-compiler 0.68 panic at rvalue.rs:1009)", "window function evaluators, sliding retraction, executors"]
+TRUSTED += ["ASSUMED contract of get_row_at_idx (Arrow access) and of UInt64Array::from (prelude_search.rs / prelude_ntile.rs)", "G1: ghost parameter naming the predicate the comparison closure decides"]
+ASSUMPTIONS += ["NtileEvaluator.n >= 1 (rejected at construction otherwise), num_rows <= isize::MAX", "find_bisect_point: the predicate is prefix-closed on [low, high) (sortedness of the ORDER BY column)"]
 EXPLANATION = "ROWS frame bounds proved equal to the mathematical frame definition for every u64 offset, every idx < length, with no arithmetic overflow."
